@@ -68,6 +68,7 @@ type vTransform struct {
 	ended int
 	fail  bool
 	modes []int // per call mode (overrides mode when set)
+	created []*server.Entity
 }
 
 func (t *vTransform) GetConfig() map[string]interface{} { return map[string]interface{}{"Type": "VerifTransform"} }
@@ -92,6 +93,12 @@ func (t *vTransform) transformEntities(runner *Runner, entities []*server.Entity
 			out = append(out, e, e)
 		}
 		return out, nil
+	case 3:
+		// grows the slice it was handed and returns it (what a JavaScript transform does
+		// with entities.push(x)): one created entity per call
+		created := server.NewEntity("ns0:created"+strconv.Itoa(t.calls), 0)
+		t.created = append(t.created, created)
+		return append(entities, created), nil
 	}
 	return entities, nil
 }
